@@ -161,6 +161,11 @@ class Probe:
         self.kept.append((k, args, [list(a) if isinstance(a, (list, tuple)) else None for a in args], snapshot(args)))
         if p["kind"] == "reenter" and k == 1 and self.reenter is not None:
             self.log.append(("call", k, True))
+            if p.get("when") == "late":
+                # the other call happens after the callable has computed its result, before it returns it
+                res = self.fn(*args)
+                self.inner = self.reenter()
+                return res
             self.inner = self.reenter()
             return self.fn(*args)
         fire = p["kind"] != "none" and (k == p["at"] or (p.get("permanent") and k >= p["at"]))
@@ -287,7 +292,11 @@ def plans_for(tier):
     for ret in WRONG_RETURNS:
         plans.append({"kind": "wrong_return", "ret": ret, "at": 1})
     plans.append({"kind": "wrong_return", "ret": "none", "at": 2})
-    plans.append({"kind": "reenter", "at": 1})
+    # the bindings never release the GIL, so another Python thread can run a driver only while a callable executes
+    # Python code: every cross-thread interleaving of driver calls is a complete driver call nested inside a callable
+    # invocation.  These two plans place that nested call at the start and at the end of the callable, deterministically.
+    plans.append({"kind": "reenter", "at": 1, "when": "early"})
+    plans.append({"kind": "reenter", "at": 1, "when": "late"})
     return plans
 
 
@@ -468,7 +477,7 @@ def main():
             stats["runs"] += 1
             stats["faults_planned"] += 1
             fired = sum(1 for e in pr.log if e[2])
-            key = plan["kind"] + ":" + plan.get("exc", plan.get("ret", "same_driver"))
+            key = plan["kind"] + ":" + plan.get("exc", plan.get("ret", "same_driver_" + plan.get("when", "")))
             if fired:
                 stats["fired_runs"] += 1
                 stats["faults_fired"][key] = stats["faults_fired"].get(key, 0) + fired
